@@ -55,6 +55,9 @@ STORAGES = {
     'bm': ('big_map int string', ['{}', '{ Elt 1 "a" }', '{ Elt 1 "a" ; Elt 2 "b" }', '5', '6'], 1),
     'bm_bm': ('pair (big_map int string) (big_map int string)', ['(Pair {} {})', '(Pair { Elt 1 "a" } {})', '(Pair { Elt 1 "a" } { Elt 2 "b" })', '(Pair 5 6)', '(Pair 5 {})'], 2),
     'bm_int': ('pair (big_map int string) int', ['(Pair {} 0)', '(Pair { Elt 3 "c" } 7)', '(Pair 5 1)'], 1),
+    # a timestamp next to the big_map: legal timestamps reach far beyond what a calendar date can show (year 10000 and later, before year 1)
+    'bm_ts': ('pair (big_map int string) timestamp', ['(Pair {} 0)', '(Pair { Elt 3 "c" } 253402300800)', '(Pair 5 "2021-06-01T00:00:00Z")', '(Pair {} -62135596801)',
+                                                      '(Pair 6 99999999999999)'], 1),
     'bm3': ('pair (big_map int string) (pair (big_map int string) (big_map int string))',
             ['(Pair {} (Pair {} {}))', '(Pair { Elt 1 "x" } (Pair {} { Elt 2 "y" }))', '(Pair 5 (Pair 6 {}))'], 3),
     'int': ('int', ['0', '5'], 0),
@@ -182,7 +185,7 @@ def bm_op(rng, tag):
 
 def good_session(rng, tier):
     """A list of cells (each a list of instruction strings) designed to succeed."""
-    shape = rng.choice(['bm', 'bm', 'bm_bm', 'bm_bm', 'bm_int', 'bm3', 'int', 'pbm', 'pbm', 'map_bm', 'map_bm', 'bm_cond', 'bm_cond', 'sap'])
+    shape = rng.choice(['bm', 'bm', 'bm_bm', 'bm_bm', 'bm_int', 'bm_ts', 'bm3', 'int', 'pbm', 'pbm', 'map_bm', 'map_bm', 'bm_cond', 'bm_cond', 'sap'])
     ty, lits, nbm = STORAGES[shape]
     pty, plits = PARAMS.get(shape, ('unit', ['Unit']))
     cells = [[f'parameter ({pty}) ; storage ({ty}) ; {COND_CODE if shape == "bm_cond" else CODE}']]
@@ -206,8 +209,8 @@ def good_session(rng, tier):
                 for _ in range(rng.randint(0, 2)):
                     body.append(bm_op(rng, tag))
                 body.append(['PAIR'])
-            elif shape == 'bm_int':
-                body.append(['PUSH int 4'])
+            elif shape in ('bm_int', 'bm_ts'):
+                body.append(['PUSH int 4'] if shape == 'bm_int' else [f'PUSH timestamp {rng.choice([0, 1700000000, 253402300800, -62135596801, 99999999999999])}'])
                 body.append(['EMPTY_BIG_MAP int string'])
                 for _ in range(rng.randint(0, 3)):
                     body.append(bm_op(rng, tag))
@@ -245,7 +248,7 @@ def good_session(rng, tier):
                 for _ in range(rng.randint(0, 2)):
                     body.append(bm_op(rng, tag))
                 body.append(['SWAP', 'PAIR'])
-            elif shape == 'bm_int':
+            elif shape in ('bm_int', 'bm_ts'):
                 body.append(['UNPAIR'])
                 for _ in range(rng.randint(0, 3)):
                     body.append(bm_op(rng, tag))
